@@ -51,9 +51,9 @@ def h_ops(ctx, cfg):
     Ts = [sym.sym_val('T') for _ in specs]
     extra = None
     if op == 'mask':
-        n = draw_num_args(specs[0])
+        n = sym.pick(sum(1 for k in specs[0].kinds if k < 2) + 3, 'n')
     elif op == 'forwards':
-        n = draw_num_args(specs[1])
+        n = sym.pick(sum(1 for k in specs[1].kinds if k < 2) + 3, 'n')
     elif op in ('kwoargs', 'posoargs'):
         poks = [nm for nm, k in zip(specs[0].names, specs[0].kinds) if k == 1]
         extra = poks[sym.pick(len(poks), 'sel')] if poks else None
@@ -100,6 +100,25 @@ def h_ops(ctx, cfg):
             return S.signature(functools.partial(fns[0], *([0] * cnt))), fns
         raise AssertionError(op)
 
+    # dry run with concrete annotation values: sigtools formats parameters into its ValueError messages,
+    # which would make CrossHair enumerate the symbolic values
+    with sym.notrace():
+        saved = (list(Ts), V if op == 'annotate' else None)
+        for j in range(len(Ts)):
+            Ts[j] = 3000 + j
+        if op == 'annotate':
+            V = 4000
+        try:
+            compute(False)
+            dry_raises = False
+        except ValueError:
+            dry_raises = True
+        Ts[:] = saved[0]
+        if op == 'annotate':
+            V = saved[1]
+    if dry_raises:
+        ctx.count('raised')
+        return
     try:
         Re, fe = compute(False)
         Rp, fp = compute(True)
